@@ -9,11 +9,13 @@
 package main
 
 import (
+	"encoding/hex"
 	"encoding/json"
 	"fmt"
 	"go/ast"
 	"go/parser"
 	"go/token"
+	"math"
 	"os"
 	"path/filepath"
 	"sort"
@@ -23,20 +25,20 @@ import (
 
 // provenance classes
 const (
-	KEscBody = "KEscBody" // the escape loop of StringVal.String itself (model/Quote.v esc_seq)
-	KConst   = "KConst"   // compile-time constant text
-	KChoice  = "KChoice"  // one of several constants
-	KConfig  = "KConfig"  // configuration (table / database names)
-	KInt     = "KInt"     // %d of an expression whose static type is a basic integer (go/types), strconv of an integer
-	KFloat   = "KFloat"   // %f
-	KDate    = "KDate"    // time.Format("2006-01-02")
-	KIdent   = "KIdent"   // identifier accepted by a query lexer rule [a-zA-Z_][a-zA-Z0-9_]*
-	KQuoted  = "KQuoted"  // output of StringVal.String
+	KEscBody = "KEscBody"  // the escape loop of StringVal.String itself (model/Quote.v esc_seq)
+	KConst   = "KConst"    // compile-time constant text
+	KChoice  = "KChoice"   // one of several constants
+	KConfig  = "KConfig"   // configuration (table / database names)
+	KInt     = "KInt"      // %d of an expression whose static type is a basic integer (go/types), strconv of an integer
+	KFloat   = "KFloat"    // %f
+	KDate    = "KDate"     // time.Format("2006-01-02")
+	KIdent   = "KIdent"    // identifier accepted by a query lexer rule [a-zA-Z_][a-zA-Z0-9_]*
+	KQuoted  = "KQuoted"   // output of StringVal.String
 	KRender  = "KRendered" // output of some SQLObject.String(ctx, ...)
-	KBuilt   = "KBuilt"   // text built by another listed site
-	KAlias   = "KAlias"   // generated alias / checked constructor argument
-	KDbHex   = "KDbHex"   // hex text read back from the database
-	KDead    = "KDead"    // parameter of a function nobody calls
+	KBuilt   = "KBuilt"    // text built by another listed site
+	KAlias   = "KAlias"    // generated alias / checked constructor argument
+	KDbHex   = "KDbHex"    // hex text read back from the database
+	KDead    = "KDead"     // parameter of a function nobody calls
 	KUnclass = "KUnclassified"
 )
 
@@ -124,28 +126,28 @@ type Site struct {
 }
 
 type fnCtx struct {
-	pkg    *pkgInfo
-	file   string
-	name   string       // function name, or field/var the literal is bound to
-	params map[string]int // parameter name -> position
-	body   ast.Node
-	node   ast.Node
-	defs   map[string][]ast.Expr // local variable -> defining expressions
-	elems  map[string][]ast.Expr // slice variable -> element expressions
-	rangeOf map[string]ast.Expr  // range value variable -> ranged expression
-	parent *fnCtx
-	recv   string
+	pkg     *pkgInfo
+	file    string
+	name    string         // function name, or field/var the literal is bound to
+	params  map[string]int // parameter name -> position
+	body    ast.Node
+	node    ast.Node
+	defs    map[string][]ast.Expr // local variable -> defining expressions
+	elems   map[string][]ast.Expr // slice variable -> element expressions
+	rangeOf map[string]ast.Expr   // range value variable -> ranged expression
+	parent  *fnCtx
+	recv    string
 }
 
 type pkgInfo struct {
-	dir     string
-	files   map[string]*ast.File
-	consts  map[string]bool
-	structs map[string][]string    // struct name -> field names in order
-	fields  map[string][]fieldDef  // field name -> defining expressions (composite literals, assignments)
-	calls   map[string][]callSite  // callee name -> call sites
-	mapFields map[string]bool      // struct fields of map type
-	funcs   []*fnCtx
+	dir       string
+	files     map[string]*ast.File
+	consts    map[string]bool
+	structs   map[string][]string   // struct name -> field names in order
+	fields    map[string][]fieldDef // field name -> defining expressions (composite literals, assignments)
+	calls     map[string][]callSite // callee name -> call sites
+	mapFields map[string]bool       // struct fields of map type
+	funcs     []*fnCtx
 }
 type fieldDef struct {
 	e  ast.Expr
@@ -865,11 +867,16 @@ func (c *fnCtx) addSprintfSite(x *ast.CallExpr) {
 	// package fmt itself prints for the format over sentinel operands (expect = the concatenation the pieces stand for)
 	var expect strings.Builder
 	sentinels := make([]any, len(args))
+	// round 8: the same reading over SHORT operands of the kinds the site has (strings with a quote and a backslash; positive, negative
+	// and extreme integers): the check evaluates model/GoFmtInt.v on (format, operands) and compares with what package fmt prints here
+	var expect2 strings.Builder
+	shorts := make([]any, len(args))
 	checkable := true
 	flush := func() {
 		if text.Len() > 0 {
 			st.Pieces = append(st.Pieces, Piece{T: "text", S: text.String()})
 			expect.WriteString(text.String())
+			expect2.WriteString(text.String())
 			text.Reset()
 		}
 	}
@@ -926,6 +933,8 @@ func (c *fnCtx) addSprintfSite(x *ast.CallExpr) {
 				sentinels[idx] = 7000 + idx
 				// flags and width of an integer verb add sign, zeros or spaces only: the single verb is printed by fmt itself
 				expect.WriteString(fmt.Sprintf("%"+spec+"d", 7000+idx))
+				shorts[idx] = shortInt(idx)
+				expect2.WriteString(fmt.Sprintf("%"+spec+"d", shorts[idx]))
 			} else {
 				checkable = false // float verbs print a precision-dependent text; an operand used under two kinds of verb
 			}
@@ -936,6 +945,8 @@ func (c *fnCtx) addSprintfSite(x *ast.CallExpr) {
 			if sentinels[idx] == nil || sentinels[idx] == sv {
 				sentinels[idx] = sv
 				expect.WriteString(sv)
+				shorts[idx] = fmt.Sprintf("\x01a%d'\\", idx)
+				expect2.WriteString(shorts[idx].(string))
 			} else {
 				checkable = false
 			}
@@ -961,8 +972,48 @@ func (c *fnCtx) addSprintfSite(x *ast.CallExpr) {
 			st.Pieces = append(st.Pieces, Piece{T: "arg", K: KUnclass,
 				What: "package fmt prints this format differently from the analyser's decomposition (flags, width, precision, index)"})
 		}
+		rec := fmtModelRec{File: st.File, Line: st.Line, Format: hex.EncodeToString([]byte(format)),
+			Out: hex.EncodeToString([]byte(fmt.Sprintf(format, shorts...))), Expect: hex.EncodeToString([]byte(expect2.String()))}
+		for _, o := range shorts {
+			switch v := o.(type) {
+			case string:
+				rec.Ops = append(rec.Ops, fmtModelOp{K: "s", V: hex.EncodeToString([]byte(v))})
+			case int:
+				rec.Ops = append(rec.Ops, fmtModelOp{K: "d", Ty: "int", V: strconv.Itoa(v)})
+			case int64:
+				rec.Ops = append(rec.Ops, fmtModelOp{K: "d", Ty: "int64", V: strconv.FormatInt(v, 10)})
+			}
+		}
+		fmtModel = append(fmtModel, rec)
 	}
 	sites = append(sites, st)
+}
+
+// round 8: every compared constant format with short operands of its kinds, package fmt's output and the decomposition's text
+type fmtModelOp struct {
+	K  string `json:"k"`
+	Ty string `json:"ty,omitempty"`
+	V  string `json:"v"`
+}
+type fmtModelRec struct {
+	File   string       `json:"file"`
+	Line   int          `json:"line"`
+	Format string       `json:"format"`
+	Ops    []fmtModelOp `json:"ops"`
+	Out    string       `json:"out"`
+	Expect string       `json:"expect"`
+}
+
+var fmtModel []fmtModelRec
+
+func shortInt(idx int) any {
+	switch idx % 3 {
+	case 0:
+		return 7000 + idx
+	case 1:
+		return -(7000 + idx)
+	}
+	return int64(math.MinInt64)
 }
 
 // how many constant formats were decomposed / compared with package fmt's own output over sentinel operands / differed
@@ -1346,7 +1397,7 @@ func markNested(b *ast.BinaryExpr) {
 // reviewed exclusions: functions that build request-language text (re-parsed and quoted later), not SQL
 var excludedFuncs = map[string]string{
 	"reader/prof/transpiler/transpiler.go:populateTypeId": "builds back-ticked selector literals that Str.Unquote strips again; the values reach SQL through NewStringVal in StreamSelectorPlanner.getMatchers",
-	"reader/utils/sql_select/condition.go:CNot.String":     "dead code: sql.Not has no caller under reader/ (checked by translate/gen_sqlsites); it renders `!(...)`, a single '!' is an error token of the ClickHouse lexer",
+	"reader/utils/sql_select/condition.go:CNot.String":    "dead code: sql.Not has no caller under reader/ (checked by translate/gen_sqlsites); it renders `!(...)`, a single '!' is an error token of the ClickHouse lexer",
 }
 
 func (c *fnCtx) excluded() bool {
@@ -1410,5 +1461,5 @@ func main() {
 	})
 	enc := json.NewEncoder(os.Stdout)
 	enc.SetIndent("", " ")
-	enc.Encode(map[string]any{"sites": sites, "excluded": excludedFuncs, "types": typeStats, "fmt_checks": fmtChecks, "bind": bindStats})
+	enc.Encode(map[string]any{"sites": sites, "excluded": excludedFuncs, "types": typeStats, "fmt_checks": fmtChecks, "bind": bindStats, "fmt_model": fmtModel})
 }
